@@ -64,7 +64,7 @@ def _open_calls(body, bodies):
             continue
         if is_cl:
             h = bodies.get(hid)
-            if h is None or h["kind"] != "closure" or h["arg_count"] < 2 or own_file(h["span"]).startswith(("dep:tracing", "dep:log")):
+            if h is None or h["kind"] != "closure" or (h["arg_count"] < 2 and not c.get("hof_thunk")) or own_file(h["span"]).startswith(("dep:tracing", "dep:log")):
                 continue
         yield hid
 
@@ -75,7 +75,7 @@ def eligible(bodies, parents, hid, callee, is_closure=False, single_site=False):
         return False
     if is_closure:
         # closures that take arguments; nullary closures (thunks) are inlined on paths, where the lemmas name them
-        if h["kind"] != "closure" or h["arg_count"] < 2:
+        if h["kind"] != "closure" or (h["arg_count"] < 2 and not callee.get("hof_thunk")):
             return False
         from cbcore import own_file
         if own_file(h["span"]).startswith(("dep:tracing", "dep:log")):
@@ -105,7 +105,7 @@ def inline_into(caller, blk, t, h, is_closure=False):
         # rust-call ABI: args = [closure (by ref or value), tuple of the written arguments]; the body takes them spread
         blk["stmts"].append({"lhs": {"l": nl + 1, "p": []}, "rv": {"k": "use", "o": copy.deepcopy(t["args"][0])}, "s": ts, "inl_arg": h["id"]})
         tup = t["args"][1] if len(t["args"]) > 1 else None
-        tp = (tup.get("move") or tup.get("copy")) if tup else None
+        tp = (tup.get("move") or tup.get("copy")) if tup and "const" not in tup else None
         for j in range(h["arg_count"] - 1):
             if tp is None:
                 raise ValueError("closure call with a constant argument tuple")
@@ -214,6 +214,14 @@ def desugar_hofs(raw):
             if blk.get("cleanup") or t["k"] != "call":
                 continue
             kind = HOFS.get(t["callee"].get("def"))
+            cdefn = t["callee"].get("def")
+            self_ty = (t["callee"].get("ga") or [""])[0] or ""
+            if cdefn == "std::ops::Try::branch" and self_ty.startswith("std::option::Option<"):
+                kind = "try_branch_opt"     # the `?` operator on an Option
+            elif cdefn == "std::ops::Try::branch" and self_ty.startswith("std::result::Result<"):
+                kind = "try_branch_res"
+            elif cdefn == "std::ops::FromResidual::from_residual" and self_ty.startswith("std::option::Option<"):
+                kind = "from_residual_opt"
             if kind is None or own_file(blk.get("ts", {})).startswith(("dep:tracing", "dep:log")):
                 continue
             if not t["succ"] or not t["args"]:
@@ -223,7 +231,7 @@ def desugar_hofs(raw):
             if rp is None:
                 continue
             cdef = None
-            needs_closure = kind not in ("res_ok", "bool_then_some")
+            needs_closure = kind not in ("res_ok", "bool_then_some", "try_branch_opt", "try_branch_res", "from_residual_opt")
             if needs_closure:
                 if len(t["args"]) < 2:
                     continue
@@ -272,13 +280,34 @@ def desugar_hofs(raw):
                 else:
                     targ = {"const": {"ty": "()", "v": "()"}}
                 callee = {"def": "std::ops::FnOnce::call_once", "crate": "core", "trait": "std::ops::FnOnce", "self_kind": "closure",
-                          "self_closure": cdef, "res": cdef, "res_kind": "item", "res_local": True, "ga": []}
+                          "self_closure": cdef, "res": cdef, "res_kind": "item", "res_local": True, "ga": [],
+                          # the closure argument of a desugared combinator is inlined even when it takes no arguments
+                          # (`cond.then(|| ..)`, `opt.unwrap_or_else(|| ..)`): it has no other caller and no lemma names it
+                          "hof_thunk": True}
                 return stmts, {"k": "call", "callee": callee, "args": [t["args"][1], targ], "dest": dst, "succ": [nxt]}
 
             OPT, RES = "std::option::Option", "std::result::Result"
             goto_k = {"k": "goto", "succ": [K]}
             unreachable = block([], {"k": "unreachable", "succ": []})
-            if kind in ("opt_map", "opt_and_then", "opt_unwrap_or_else"):
+            CF = "std::ops::ControlFlow"
+            if kind == "from_residual_opt":
+                blk["stmts"].append(assign(dest, agg(OPT, "None", 0, [])))
+                blk["term"] = goto_k
+            elif kind in ("try_branch_opt", "try_branch_res"):
+                d = local("isize")
+                if kind == "try_branch_opt":
+                    cont = block([assign(dest, agg(CF, "Continue", 0, [{"move": payload("Some", 1)}]))], goto_k)
+                    brk = block([assign(dest, agg(CF, "Break", 1, [{"const": {"ty": "Option<Infallible>", "v": "None"}}]))], goto_k)
+                    targets = [[0, brk], [1, cont]]
+                else:
+                    cont = block([assign(dest, agg(CF, "Continue", 0, [{"move": payload("Ok", 0)}]))], goto_k)
+                    e0 = local("?")
+                    brk = block([assign(loc(e0), {"k": "use", "o": {"move": payload("Err", 1)}}),
+                                 assign(dest, agg(CF, "Break", 1, [{"move": loc(e0)}]))], goto_k)
+                    targets = [[0, cont], [1, brk]]
+                blk["stmts"].append(assign(loc(d), {"k": "discr", "p": {"l": rp["l"], "p": list(rp["p"])}, "nvar": 2}))
+                blk["term"] = {"k": "switch", "discr": {"move": loc(d)}, "targets": targets, "otherwise": unreachable, "succ": [cont, brk, unreachable]}
+            elif kind in ("opt_map", "opt_and_then", "opt_unwrap_or_else"):
                 d = local("isize")
                 v = local("?")
                 if kind == "opt_map":
@@ -357,7 +386,7 @@ def inline_local_calls(raw):
             if caller["id"] in moved:
                 continue
             for blk, t, c, hid, is_cl in list(_calls(caller)):
-                if is_cl and (hid not in bodies or bodies[hid]["kind"] != "closure" or bodies[hid]["arg_count"] < 2
+                if is_cl and (hid not in bodies or bodies[hid]["kind"] != "closure" or (bodies[hid]["arg_count"] < 2 and not c.get("hof_thunk"))
                               or own_file(bodies[hid]["span"]).startswith(("dep:tracing", "dep:log"))):
                     continue        # thunks and coroutines: not ours, and not a leftover either
                 # a private helper that builds closures of its own (a talkback constructor) can be moved into its only caller:
